@@ -88,7 +88,7 @@ impl FaultScenario {
 		}
 		let late_after = env.len();
 		let ping = self.fault == Fault::Ping;
-		CliScenarioCfg { fail_close: matches!(self.fault, Fault::SendAndClose(_)), ws_builder: None, rx_split: false, ping_ms: None, send_ping_ms: if ping { Some(5) } else { None }, fail_ping: ping, warmup: 0, id_kind: self.id_kind, ops: self.ops.clone(), env, fail_send_at, tx_points: self.tx_points, buffer_cap: 4, late_after }
+		CliScenarioCfg { request_timeout_ms: None, frame_ws: "", fail_close: matches!(self.fault, Fault::SendAndClose(_)), ws_builder: None, rx_split: false, ping_ms: None, send_ping_ms: if ping { Some(5) } else { None }, fail_ping: ping, warmup: 0, id_kind: self.id_kind, ops: self.ops.clone(), env, fail_send_at, tx_points: self.tx_points, buffer_cap: 4, late_after }
 	}
 }
 
@@ -360,7 +360,7 @@ impl Scenario for HostileScenario {
 		ops.push(FeOp::LateCall);
 		let sends = self.pending.len();
 		let env = vec![EnvEvent::Raw { after: sends, text: self.text.clone() }, EnvEvent::Answer { msg: sends, kind: AnswerKind::Ok }];
-		clim::setup(&CliScenarioCfg { fail_close: false, ws_builder: None, rx_split: false, ping_ms: None, send_ping_ms: None, fail_ping: false, warmup: 0, id_kind: IdKind::Number, ops, env, fail_send_at: None, tx_points: false, buffer_cap: 4, late_after: 1 })
+		clim::setup(&CliScenarioCfg { request_timeout_ms: None, frame_ws: "", fail_close: false, ws_builder: None, rx_split: false, ping_ms: None, send_ping_ms: None, fail_ping: false, warmup: 0, id_kind: IdKind::Number, ops, env, fail_send_at: None, tx_points: false, buffer_cap: 4, late_after: 1 })
 	}
 	fn judge(&self, st: CliState, _trace: &[String], panics: &[String], status: Status) -> Verdict {
 		let mut v = Vec::new();
